@@ -258,7 +258,7 @@ func init() {
 					out = RunScenarioO(d, sc, 3*time.Second, false)
 				}
 				judge(sc, out, []wholeValue{{val, uint32(1000 + n)}}, fmt.Sprintf("sub/%d/%d", n, mask))
-				if len(rep.Divergences) > 3 {
+				if enoughDivergences(rep, 3) {
 					rep.Distinct = len(distinct)
 					return
 				}
@@ -289,7 +289,7 @@ func init() {
 				Step{Kind: "feed", Conn: "b", Cmd: Command{Kind: "gat", Key: key, Exptime: 0, Opaque: 4}})
 			out := RunScenarioO(d, sc, 3*time.Second, false)
 			judge(sc, out, []wholeValue{{v0, 1}, {v1, 2}}, fmt.Sprintf("old/%d/%d/%d", n0, n1, k))
-			if len(rep.Divergences) > 3 {
+			if enoughDivergences(rep, 3) {
 				rep.Distinct = len(distinct)
 				return
 			}
